@@ -44,6 +44,7 @@ pub fn verif_str_get_to<'a>(s: &'a str, n: usize) -> (r: Option<&'a str>)
 
 
 //@ fn src/handlers/hunk.rs new_line_state spec=hunk.new_line_state
+//@|         !word_diff() && hunk_dt(*prev_state) is Combined ==> (r matches Some(s) ==> n_parents_spec(hunk_dt(s)) == n_parents_spec(hunk_dt(*prev_state))),  // @C01:the.number.of.marker.columns.of.a.combined.hunk.stays.the.same.from.line.to.line
 //@before <<<let prefix_char = match>>>| proof { vstd::utf8::encode_utf8_decode_utf8(prefix@); lemma_first_minus_or_plus(prefix@); }
 //@rewrite <<<new_line.chars().next()>>> => <<<verif_first_char(new_line)>>>
 //@rewrite <<<new_line.get(..min(n_parents, new_line.len()))>>> => <<<verif_str_get_to(new_line, min(n_parents, new_line.len()))>>>
